@@ -74,4 +74,8 @@ def run(ctx):
     ]
 
 
-# MUTANTS: see the block at the end of this file (filled in after mutation testing)
+# MUTANTS (scratch worktree, `VERIF_REPO=... VERIF_DEV_REUSE=1 VERIF_DEV_NOCLI=1 ./check C18`) -- all CAUGHT (exit 1):
+#   V1 validate.rs consume_line_break: a lone CR does not bump `line`      -> Trace_YamlValidate rejects (line 1 col 9 at offset 9 after a CR)
+#   V2 validate.rs record_anchor: recorded name one byte short             -> `- &a2 a\n- *a2\n` rejected (UnknownAnchor) in the replay stage
+#   V3 validate.rs skip_block_scalar_body: `indent > parent_indent + 1`    -> width-1 block scalars with `[` / `'` / `&a` content rejected
+#   V4 validate.rs scan_anchor_name: column not advanced over the name     -> Trace_YamlValidate rejects (col 3 reported, LineCol says 4)
